@@ -5,11 +5,13 @@ cd "$W" || exit 3
 git checkout -q -- . ; git apply out/patch$I.diff || { echo "patch does not apply"; exit 3; }
 cmake --build _b -j8 >/dev/null 2>&1 || { echo "BUILD FAILED"; git checkout -q -- .; exit 3; }
 T=$(ctest --test-dir _b -j8 --timeout 900 2>&1 | grep "tests passed")
-OUT_P=$(LD_LIBRARY_PATH=_b/blocc timeout 20 _b/apps/bloc out/demo$I.bloc 2>&1; echo "rc=$?")
+if tail -1 out/demo$I.expected | grep -q "^exit="; then FMT=exit; else FMT=rc; fi
+runit() { if [ $FMT = exit ]; then LD_LIBRARY_PATH=_b/blocc timeout 20 _b/apps/bloc out/demo$I.bloc 2>&1; echo "exit=$?"; else LD_LIBRARY_PATH=_b/blocc timeout 20 _b/apps/bloc out/demo$I.bloc 2>&1; echo "rc=$?"; fi; }
+OUT_P=$(runit)
 git checkout -q -- .
 cmake --build _b -j8 >/dev/null 2>&1
-OUT_H=$(LD_LIBRARY_PATH=_b/blocc timeout 20 _b/apps/bloc out/demo$I.bloc 2>&1; echo "rc=$?")
-EXP=$(cat out/demo$I.expected; echo "rc=0")
+OUT_H=$(runit)
+if [ $FMT = exit ]; then EXP=$(cat out/demo$I.expected); else EXP=$(cat out/demo$I.expected; echo "rc=0"); fi
 echo "tests with change: $T"
 if [ "$OUT_H" == "$EXP" ]; then echo "demo on HEAD: matches expected"; H=1; else echo "demo on HEAD: DIFFERS"; H=0; fi
 if [ "$OUT_P" != "$EXP" ]; then echo "demo with change: differs from expected (good)"; P=1; else echo "demo with change: SAME (bad)"; P=0; fi
